@@ -106,7 +106,9 @@ impl<'a> Gen<'a> {
             }
             K::Syn => self.syn(local).unwrap_or_else(|| "@__none".into()),
             K::Str => match self.rng.below(if depth > 2 || !lib { 2 } else { 7 }) {
-                0 => format!("\"s{}\"", self.rng.below(4)),
+                // now and then a LONG literal in which character and byte offsets disagree from early on (anything that cuts
+                // statement text at a fixed byte length lands inside a character for one of the two paddings)
+                0 => if self.rng.chance(10) { format!("\"{}{}\"", "a".repeat(self.rng.below(2)), "é".repeat(36 + self.rng.below(4))) } else { format!("\"s{}\"", self.rng.below(4)) },
                 1 => if self.in_scan > 0 { format!("${}", if self.rng.chance(25) { 2 + self.rng.below(2) } else { self.rng.below(2) }) } else { "\"lit\"".into() },
                 2 => match self.syn(local) { Some(s) => format!("(source-text {})", s), None => "\"x\"".into() },
                 3 => match self.syn(local) { Some(s) => format!("(node-type {})", s), None => "\"y\"".into() },
